@@ -13,7 +13,9 @@ JUNK = ['INTERRUPT', 'DecrSet', 'BSC_pread_extended_info', 'RealFaultAddressPurg
         0x99990000, 'PERF_THD_CSwitch', 'MACH_SCHED',
         # undecoded names that look like the records decoders search their windows for (same prefix, neighbouring id)
         'VFS_LOOKUP_DONE', 'DYLD_uuid_map_32_a', 'DYLD_uuid_shared_cache_32_a', 'PERF_STK_USample', 'PERF_THD_Disp_Data',
-        'DBG_DYLD_TIMING_OBJC_INIT']
+        'DBG_DYLD_TIMING_OBJC_INIT',
+        # bookkeeping records of the trace facility itself that no decoder handles (a cpu buffer overflowed, ...)
+        'TRACE_LOST_EVENTS', 'TRACE_WRITING_EVENTS']
 LOOKALIKES = JUNK[8:]
 REAL_FAULT_KINDS = ['RealFaultAddressInternal', 'RealFaultAddressExternal', 'RealFaultAddressSharedCache',
                     'RealFaultAddressPurgeable']
@@ -112,6 +114,11 @@ def expand_op(tid, op, res):
         pid = res['pids'][k % len(res['pids'])]
         out.append(E(tid, 'TRACE_DATA_NEWTHREAD', 0, args=[child, pid, extra & 1, w(seed)[0]]))
         out.append(E(tid, 'TRACE_STRING_NEWTHREAD', 0, data=EV.text32(res['prefix'] + domains.ascii_text(w(seed, 1), 20))))
+        if extra & 2:
+            # the new thread starts logging at once (an exec copy takes over where the old thread was; a dump may begin here)
+            out.append(ev(child, 'BSC_getpid', 1, seed, 5))
+            out.append(ev(child, 'MACH_SCHED', 0, seed, 6))
+            out.append(ev(child, 'BSC_getpid', 2, seed, 7))
     elif kind == 'exec':
         pid = res['pids'][k % len(res['pids'])]
         out.append(E(tid, 'TRACE_DATA_EXEC', 0, args=[pid, w(seed)[0], w(seed)[1], 0]))
